@@ -593,3 +593,105 @@ theorem tagRead_of_lines (r0 : TagList) (text h : Str) (rest : List Str)
   simp [TagList.read, hl, hh]
 
 end EupsModel.Manifest
+
+namespace EupsModel.Manifest
+
+/-! ### Mapping: what `add` does to look-ups -/
+
+/-- the per-version table of a product in a flavor -/
+def prodTable (m : MapTable) (fl p : Str) : Option (List (Str × (Str × Option Str))) :=
+  (assocGet m fl).bind fun byP => assocGet byP p
+
+theorem apply1_eq (m : Mapping) (inP inV fl : Str) :
+    m.apply1 inP inV fl =
+      match prodTable m.map fl inP with
+      | none => (inP, some inV)
+      | some byV =>
+        if byV.isEmpty then (inP, none)
+        else match assocGet byV inV with
+          | some r => r
+          | none => match assocGet byV sAny with
+            | some r => r
+            | none => (inP, some inV) := by
+  unfold Mapping.apply1 prodTable
+  cases assocGet m.map fl with
+  | none => rfl
+  | some byP =>
+    cases assocGet byP inP with
+    | none => rfl
+    | some byV => rfl
+
+theorem prodTable_tableAdd_other (pinned : Bool) (m : MapTable) (inP inV outP : Str) (outV : Option Str)
+    (flavor : Str) (ow : Bool) (fl p : Str) (hp : p ≠ inP) :
+    prodTable (tableAdd pinned m inP inV outP outV flavor ow) fl p = prodTable m fl p := by
+  unfold prodTable tableAdd
+  by_cases hf : fl = flavor
+  · subst hf
+    simp only [assocGet_assocSet_same, Option.bind_some]
+    rw [assocGet_assocSet_other _ _ _ _ hp]
+    cases assocGet m fl with
+    | none => simp [assocGet]
+    | some byP => simp
+  · rw [assocGet_assocSet_other _ _ _ _ hf]
+
+theorem prodTable_tableAdd_other_flavor (pinned : Bool) (m : MapTable) (inP inV outP : Str) (outV : Option Str)
+    (flavor : Str) (ow : Bool) (fl p : Str) (hf : fl ≠ flavor) :
+    prodTable (tableAdd pinned m inP inV outP outV flavor ow) fl p = prodTable m fl p := by
+  unfold prodTable tableAdd
+  rw [assocGet_assocSet_other _ _ _ _ hf]
+
+/-- a rule as `Mapping.add` receives it -/
+structure Rule where
+  inP : Str
+  inV : Str
+  outP : Option Str
+  outV : Option Str
+  flavor : Str
+  overwrite : Bool := true
+
+def addRule (pinned : Bool) (m : Mapping) (r : Rule) : Mapping :=
+  m.addP pinned r.inP r.inV r.outP r.outV r.flavor r.overwrite
+
+/-- the mapping a list of rules builds, in order -/
+def buildMapping (pinned : Bool) (rules : List Rule) : Mapping := rules.foldl (addRule pinned) {}
+
+theorem addP_map (pinned : Bool) (m : Mapping) (inP inV : Str) (outP outV : Option Str) (fl : Str) (ow : Bool) :
+    (m.addP pinned inP inV outP outV fl ow).map = m.map ∨
+      (m.addP pinned inP inV outP outV fl ow).map =
+        tableAdd pinned m.map inP inV (if falsy outP then inP else outP.getD []) outV fl ow := by
+  unfold Mapping.addP
+  by_cases h : (!falsy outV && lowerAscii (outV.getD []) == sNoreinstall) = true
+  · left; simp only [h, if_true]
+  · right; simp only [h, if_false]; rfl
+
+theorem prodTable_addRule_other (pinned : Bool) (m : Mapping) (r : Rule) (fl p : Str) (hp : p ≠ r.inP) :
+    prodTable (addRule pinned m r).map fl p = prodTable m.map fl p := by
+  unfold addRule
+  rcases addP_map pinned m r.inP r.inV r.outP r.outV r.flavor r.overwrite with h | h
+  · rw [h]
+  · rw [h]; exact prodTable_tableAdd_other _ _ _ _ _ _ _ _ _ _ hp
+
+theorem prodTable_build_unmentioned (pinned : Bool) (rules : List Rule) (fl p : Str)
+    (h : ∀ r ∈ rules, r.inP ≠ p) : ∀ m : Mapping, prodTable m.map fl p = none →
+    prodTable (rules.foldl (addRule pinned) m).map fl p = none := by
+  induction rules with
+  | nil => intro m hm; exact hm
+  | cons r rest ih =>
+    intro m hm
+    apply ih (fun q hq => h q (by simp [hq]))
+    rw [prodTable_addRule_other pinned m r fl p (fun e => h r (by simp) e.symm)]
+    exact hm
+
+/-- a product no rule mentions is mapped to itself, whatever its version and the flavor -/
+theorem apply_unmentioned (pinned : Bool) (rules : List Rule) (p v fl : Str) (h : ∀ r ∈ rules, r.inP ≠ p) :
+    (buildMapping pinned rules).apply p v fl = (p, some v) := by
+  have key : ∀ f, (buildMapping pinned rules).apply1 p v f = (p, some v) := by
+    intro f
+    have := prodTable_build_unmentioned pinned rules f p h {} rfl
+    rw [apply1_eq]
+    unfold buildMapping
+    rw [this]
+  unfold Mapping.apply
+  simp [key]
+
+end EupsModel.Manifest
